@@ -202,7 +202,55 @@ func loadProg(repo string, trustedDir string) (*Prog, error) {
 		}
 		P.SpecFiles = append(P.SpecFiles, m)
 	}
+	if err := P.Spec.resolveLikes(); err != nil {
+		return nil, err
+	}
 	return P, nil
+}
+
+func (sf *SpecFile) resolveLikes() error {
+	done := map[string]bool{}
+	var resolve func(c *Contract, depth int) error
+	resolve = func(c *Contract, depth int) error {
+		if done[c.Key] {
+			return nil
+		}
+		if depth > 5 {
+			return fmt.Errorf("like: cycle at %s", c.Key)
+		}
+		for _, l := range c.Likes {
+			prefix := ""
+			if i := strings.Index(c.Key, "."); i > 0 {
+				prefix = c.Key[:i+1]
+			}
+			t := sf.Contracts[prefix+l]
+			if t == nil {
+				t = sf.Contracts[l]
+			}
+			if t == nil {
+				return fmt.Errorf("%s: like %s: no such contract", c.Key, l)
+			}
+			if err := resolve(t, depth+1); err != nil {
+				return err
+			}
+			c.Requires = append(append([]Clause(nil), t.Requires...), c.Requires...)
+			c.Ensures = append(append([]Clause(nil), t.Ensures...), c.Ensures...)
+			c.EnsuresOnPanic = append(append([]Clause(nil), t.EnsuresOnPanic...), c.EnsuresOnPanic...)
+			c.Modifies = append(append([]string(nil), t.Modifies...), c.Modifies...)
+			if t.ModifiesAll {
+				c.ModifiesAll = true
+			}
+			c.Uses = append(append([]SCall(nil), t.Uses...), c.Uses...)
+		}
+		done[c.Key] = true
+		return nil
+	}
+	for _, k := range sortedKeys(sf.Contracts) {
+		if err := resolve(sf.Contracts[k], 0); err != nil {
+			return err
+		}
+	}
+	return nil
 }
 
 func isAnkoPkgPath(p string) bool { return p == ankoPath || strings.HasPrefix(p, ankoPath+"/") }
